@@ -81,7 +81,7 @@ fn oracle(c: &SerCase) -> Verdict {
     let state = c.obj.state;
     let is_ct = matches!(c.obj.kind % KINDS, 6 | 7 | 8 | 15..=20 | 26);
     Verdict::Pass(Info::new(x.is_seeded() || narrow || multi || (is_ct && state & 6 != 0)).label(name).label_if(x.is_seeded(), "seeded").label_if(narrow, "some prime narrower than 8 bytes").label_if(multi, "container >= 2")
-        .label_if(is_ct && state & 2 != 0, "size 3").label_if(is_ct && state & 4 != 0, "lower level"))
+        .label_if(is_ct && state & 2 != 0 && state & 16 == 0, "size 3").label_if(is_ct && state & 18 == 18, "size 4..16 (when the noise-free product chain is accepted)").label_if(is_ct && state & 4 != 0, "lower level"))
 }
 
 pub struct BatchEncoderOrCkks;
